@@ -223,7 +223,16 @@ func buildTx(w *harness.World, o rop, memo string) *harness.TxSpec {
 func execHistory(wd *wdef, hist []int, trace io.Writer) explore.BFSOut {
 	out := explore.BFSOut{Info: map[string]int64{}}
 	w := wd.build()
-	x, err := harness.StartRun(w)
+	// starting a replica can fail for reasons that have nothing to do with the history (resource
+	// exhaustion on a heavily shared machine): try again before giving up without a verdict
+	var x *harness.Run
+	var err error
+	for attempt := 0; attempt < 4; attempt++ {
+		if x, err = harness.StartRun(w); err == nil {
+			break
+		}
+		time.Sleep(time.Duration(200*(attempt+1)) * time.Millisecond)
+	}
 	if err != nil {
 		out.Err = "start: " + err.Error()
 		return out
